@@ -33,10 +33,33 @@
      WrongCode        - one row of the code table is wrong (307 emitted as 306)
      NoBlankLine      - only one CRLF between the last header and the body
      TeKeptAfterDecode- Transfer-Encoding left in the headers of a decoded chunked response
-     UnstableSameNameOrder - Headers::iter() sorts unstably: fields that share a name may be emitted in any order *)
+     UnstableSameNameOrder - Headers::iter() sorts unstably: fields that share a name may be emitted in any order
+     MaxAgeThroughF32 - Max-Age is computed through a 32-bit float (24-bit mantissa): lossy above 2^24 seconds *)
 EXTENDS HttpRespSyntax
 
 CONSTANT Dev
+
+-----------------------------------------------------------------------------
+(* impl From<SetCookie> for Header (cookie.rs ~L147-189): the pair, then the attributes that are set, in    *)
+(* the order Expires, Max-Age, Domain, Path, SameSite, Secure, HttpOnly; Max-Age is Duration::as_secs(),     *)
+(* i.e. the whole seconds, the fraction dropped.                                                              *)
+RECURSIVE Pow2(_)
+Pow2(k) == IF k = 0 THEN 1 ELSE 2 * Pow2(k - 1)
+\* nearest 32-bit float (round half to even) of a natural number n < 2^30
+F32Round(n) == IF n < Pow2(24) THEN n
+               ELSE LET k   == CHOOSE j \in 24..30 : Pow2(j) <= n /\ n < Pow2(j + 1)
+                        ulp == Pow2(k - 23)
+                        q   == n \div ulp
+                        r   == n % ulp
+                    IN IF 2 * r > ulp \/ (2 * r = ulp /\ q % 2 = 1) THEN (q + 1) * ulp ELSE q * ulp
+RECURSIVE NatOf(_, _)
+NatOf(s, acc) == IF s = "" THEN acc ELSE NatOf(Drop(s, 1), acc * 10 + DecMap[At(s, 1)])
+Cookie_MaxAge(c) == IF "MaxAgeThroughF32" \in Dev /\ Len(c.maxage) <= 9 THEN Dec(F32Round(NatOf(c.maxage, 0))) ELSE c.maxage
+RECURSIVE Cookie_Avs(_, _)
+Cookie_Avs(c, i) == IF i > Len(AttrOrder) THEN ""
+                    ELSE (IF AttrOrder[i] \in c.attrs THEN "; " \o CookieAvWith(c, AttrOrder[i], Cookie_MaxAge(c)) ELSE "")
+                         \o Cookie_Avs(c, i + 1)
+Cookie_HeaderValue(c) == c.name \o "=" \o c.value \o Cookie_Avs(c, 1)
 
 -----------------------------------------------------------------------------
 (* Part 2: the code paths as a state machine                                                         *)
